@@ -33,6 +33,7 @@ func init() {
 			checkSigningWrite(c)
 			// … and accepted by read: the refusals of read are the documented ones (merge commits exempt from the hop limit) (shared with C03)
 			checkReadGuards(c)
+			checkOrderIndependence(c)
 		})
 	register("C09",
 		"Static shape of the identity history rules: (*Identity).Merge moves the ref only after appending, reports true exactly where it moved the ref, and never refuses after moving it; identity.MergeAll reports Updated/Nothing according to that result, validates before touching refs and keeps going after a refused identity; every store to Identity.versions is an append to the same field or the initialisation of a fresh Identity; Identity.Id reads version 0 only; Identity.Validate and version.Validate contain the documented refusals with the right polarity; identity.read refuses a ref whose name is not the first version's id.",
@@ -45,6 +46,7 @@ func init() {
 			checkVersionsAppendOnly(c)
 			checkIdentityValidate(c)
 			checkTextEmpty(c)
+			checkStatusAndOneLineTables(c)
 			checkCloneDeep(c)
 			checkValidateBeforePersist(c)
 			checkIdentityReadIdGuard(c, "R9.5")
@@ -672,6 +674,34 @@ func checkRepoCacheMergeAllTiers(c *Ctx) {
 				bad = "return inside the loop at " + w.InstrPos(firstPosInstr(h))
 			}
 		}
+	}
+	// the tiers run one after the other: the wait for a tier's merges sits inside the loop over the tiers
+	{
+		okSeq, found := false, false
+		for _, f := range all {
+			for _, b := range f.Blocks {
+				for _, ins := range b.Instrs {
+					g, isGo := ins.(*ssa.Go)
+					if !isGo {
+						continue
+					}
+					tier := outermostLoopHeader(g.Block())
+					if tier == nil {
+						continue
+					}
+					found = true
+					c.Sites++
+					for _, cl := range Calls(f) {
+						if cl.Name == "sync.WaitGroup.Wait" && inLoop(cl.Block(), tier) && cl.Block() != tier {
+							// after the merges of the tier were started: not reachable from the Wait back to the go statement without passing the tier header
+							okSeq = true
+						}
+					}
+				}
+			}
+		}
+		c.Check(!found || okSeq, "R2.10", "RepoCache.MergeAll:tiers-in-sequence", pos, "each tier is waited for before the next one starts",
+			"the merges of all tiers are started before any is waited for: the bugs are merged while the identities of their authors are not merged yet, so a valid remote bug of an author who arrives in the same pull is refused ('identity doesn't exist')")
 	}
 	c.Check(fields["identities"] && fields["bugs"], "R2.10", "RepoCache.MergeAll:tiers", pos, "identities and bugs are merged", "the identities or the bugs sub-cache is not part of what MergeAll merges")
 	c.Check(loops >= 3 && bad == "" && relayed, "R2.10", "RepoCache.MergeAll:every-tier-every-result", pos, fmt.Sprintf("%d loops left by exhaustion only; every result relayed", loops), bad)
